@@ -8,6 +8,7 @@ import pool2
 import c17
 
 META = {
+    "thorough_extra": ["mocks", "aws"],
     "level": "other",
     "explanation": "Structure of the TLS path, decided on all paths (configuration tls,tls-ring,sni): (C12.1) TlsTransport::call - with a TLS configuration the plain connect is "
                    "reachable only on use_tls == false and the TLS connect only on use_tls == true, and use_tls is scheme_str() matched against exactly the literals \"https\" "
